@@ -181,6 +181,12 @@ def _oil_sweep(task):
     ps = sorted(x for x in ps if 0 < x <= P_MAX)
     if task.get("array"):
         arr = np.array(ps, dtype=float)
+        order = task.get("order", "ascending")   # a pressure history need not be sorted: depletion order, shuffled
+        if order == "descending":
+            arr = arr[::-1].copy()
+        elif order == "shuffled":
+            arr = arr[np.random.default_rng(len(ps)).permutation(len(ps))]
+        ps = [float(x) for x in arr]
         try:
             rho = np.asarray(oil.density_Standing(T, arr, api, gg, gor), dtype=float)
             bo = np.asarray(oil.b_o_Standing(T, arr, api, gg, gor), dtype=float)
@@ -189,7 +195,11 @@ def _oil_sweep(task):
             rho = bo = rs = np.full(len(ps), math.nan)
             out["exception"] = repr(ex)[:160]
         for p, a, b, c in zip(ps, rho, bo, rs):
-            out["pts"].append({"p": p, "rho": float(a), "bo": float(b), "rs": float(c)})
+            # the dissolved gas the mass balance is written with: the initial GOR at and above the bubble point, the scalar
+            # routine's value below it (independent of what the array call returned)
+            ref, _ = (gor, None) if p >= pb else _safe(oil.solution_gor_Standing, T, p, api, gg, gor)
+            out["pts"].append({"p": p, "rho": float(a), "bo": float(b), "rs": float(c), "rs_ref": float(ref)})
+        out["pts"].sort(key=lambda d: d["p"])
     else:
         for p in ps:
             a, _ = _safe(oil.density_Standing, T, p, api, gg, gor)
@@ -206,11 +216,11 @@ def log_oil_sweep(log: sweep.SweepLog, m: gaseos.Model, task: dict, res: dict, e
         return 0
     has_above = any(d["p"] > pb for d in pts) and any(d["p"] == pb for d in pts)
     meta = {"what": task.get("what", "oil"), "T": task["T"], "api": task["api"], "gas_gravity": task["gg"],
-            "gor": task["gor"], "bubble_point": pb, "array": bool(task.get("array")),
-            "task": {k: task[k] for k in ("T", "api", "gg", "gor", "ps", "array", "pb_min") if k in task}}
+            "gor": task["gor"], "bubble_point": pb, "array": bool(task.get("array")), "order": task.get("order", "ascending"),
+            "task": {k: task[k] for k in ("T", "api", "gg", "gor", "ps", "array", "order", "pb_min") if k in task}}
     log.begin("oil" if has_above else "oilsat", meta)
     for d in pts:
-        p, rs = d["p"], d["rs"]
+        p, rs = d["p"], d.get("rs_ref", d["rs"])
         side = "below" if p < pb else ("at" if p == pb else "above")
         if rs == rs:
             expect = float(m.oil_mass(task["api"], task["gg"], rs))
@@ -240,12 +250,13 @@ def oil_tasks(ctx: core.Ctx, quick: bool, n_rng: int) -> list[dict]:
                 for gor in gors:
                     k += 1
                     tasks.append({"what": "lattice oil", "T": T, "api": api, "gg": gg, "gor": gor, "ps": ps,
-                                  "array": k % 3 == 0})
+                                  "array": k % 3 == 0, "order": ("ascending", "descending", "shuffled")[(k // 3) % 3]})
     rng = np.random.default_rng([ctx.seed, 7, 2])
     for i in range(n_rng):
         tasks.append({"what": "random oil", "T": float(rng.uniform(80, 350)), "api": float(rng.uniform(12, 55)),
                       "gg": float(rng.uniform(0.56, 1.3)), "gor": float(rng.uniform(20, 2500)),
-                      "ps": sorted(float(x) for x in rng.uniform(14.7, P_MAX, 8)) + [P_MAX], "array": i % 2 == 1})
+                      "ps": sorted(float(x) for x in rng.uniform(14.7, P_MAX, 8)) + [P_MAX], "array": i % 2 == 1,
+                      "order": ("ascending", "descending", "shuffled")[(i // 2) % 3]})
     return tasks
 
 
